@@ -117,7 +117,13 @@ def parse : Nat → List String → PR E
     let one (ts : List String) (k : E → E) : PR E := (parse f ts).map fun (a, ts1) => (k a, ts1)
     match ts with
     | [] => none
-    | "n" :: bits :: _ :: r => some (.num (Float.ofBits (UInt64.ofNat (parseHexNat bits))), r)
+    | "n" :: bits :: text :: r =>
+      -- the literal's value is COMPUTED by the model (Literal.lean: the lexer's arithmetic); the lexer's own value (`bits`) is
+      -- used only where the two differ within the tolerance that `Spec.checkLiteral` grants (reported as lit_tolerated)
+      let implV := Float.ofBits (UInt64.ofNat (parseHexNat bits))
+      match (litValue text : Option Float) with
+      | some v => some (.num (if v.toBits == implV.toBits then v else implV), r)
+      | none => some (.num implV, r)
     | "s" :: h :: r => some (.str (unhex h), r)
     | "v" :: x :: r => some (.var x, r)
     | "null" :: r => some (.null, r)
@@ -235,6 +241,11 @@ structure Stats where
   mismatches : Nat := 0
   specfails : Nat := 0
   badlines : Nat := 0
+  literals : Nat := 0
+  litModelExact : Nat := 0
+  litTolerated : Nat := 0
+  litOutside : Nat := 0
+  sameObserved : Nat := 0
   maxDepthSeen : Nat := 0
   nontrivial : Nat := 0
   skipWhy : List (String × Nat) := []
@@ -265,8 +276,27 @@ def step (stt : Stats) (lineNo : Nat) (line : String) : IO Stats := do
       | none => return stt
     | "P" :: id :: ast =>
       let stt := { stt with programs := stt.programs + 1 }
-      let o : Spec.Obs := { min := field obs "min", full := field obs "full", again := field obs "again" }
+      let o : Spec.Obs := { min := field obs "min", full := field obs "full", again := field obs "again", same := field obs "same" }
       let mut stt := stt
+      if o.same != "" then stt := { stt with sameObserved := stt.sameObserved + 1 }
+      -- every number/duration literal of the program as the REAL lexer evaluated it: `lits=<text>:<bits>,…`
+      for tb in ((field obs "lits").splitOn ",").filter (fun w => w != "" && w != "-") do
+        match tb.splitOn ":" with
+        | [text, bits] =>
+          let b := parseHexNat bits
+          stt := { stt with literals := stt.literals + 1 }
+          match Spec.checkLiteral text b with
+          | some cl =>
+            IO.println s!"SPECFAIL case={stt.cases} line={lineNo} id={id} clause={cl} literal={text} impl={bits} obs={clip obs}"
+            return { stt with specfails := stt.specfails + 1 }
+          | none =>
+            match (litValue text : Option Float) with
+            | some v => if v.toBits.toNat == b then stt := { stt with litModelExact := stt.litModelExact + 1 }
+                        else stt := { stt with litTolerated := stt.litTolerated + 1 }
+            | none => stt := { stt with litOutside := stt.litOutside + 1 }
+        | _ =>
+          IO.println s!"BADLINE line={lineNo} lits field"
+          return { stt with badlines := stt.badlines + 1 }
       match Spec.checkProgram o with
       | some cl =>
         IO.println s!"SPECFAIL case={stt.cases} line={lineNo} id={id} clause={cl} obs={clip obs}"
@@ -336,4 +366,4 @@ def main : IO Unit := do
   let s ← C15Driver.loop stdin {} 1
   for (w, n) in s.skipWhy do
     IO.println s!"SKIPPED n={n} why={w}"
-  IO.println s!"STATS cases={s.cases} programs={s.programs} compared={s.compared} hostile={s.hostile} skipped_fuel={s.skippedFuel} skipped_unmodelled={s.skippedUnmodelled} skipped_timeout={s.skippedTimeout} values={s.values} script_errors={s.scriptErrors} stack_errors={s.stackErrors} crashes={s.crashes} hostile_syntax={s.hostileSyntax} hostile_ok={s.hostileOk} mismatches={s.mismatches} specfails={s.specfails} badlines={s.badlines} max_depth={s.maxDepthSeen} nontrivial={s.nontrivial}"
+  IO.println s!"STATS cases={s.cases} programs={s.programs} compared={s.compared} hostile={s.hostile} skipped_fuel={s.skippedFuel} skipped_unmodelled={s.skippedUnmodelled} skipped_timeout={s.skippedTimeout} values={s.values} script_errors={s.scriptErrors} stack_errors={s.stackErrors} crashes={s.crashes} hostile_syntax={s.hostileSyntax} hostile_ok={s.hostileOk} mismatches={s.mismatches} specfails={s.specfails} badlines={s.badlines} literals={s.literals} lit_model_exact={s.litModelExact} lit_tolerated={s.litTolerated} lit_outside={s.litOutside} same_observed={s.sameObserved} max_depth={s.maxDepthSeen} nontrivial={s.nontrivial}"
